@@ -54,6 +54,9 @@ class RoSession:
         except Exception as e:  # noqa
             disk.frozen = False
             run.violation("ro_open_failed", "ro_session", type(e).__name__, str(e)[:200])
+        # every public read: taken first in the read-only session (so that nothing a writable
+        # session might have done on the side helps), compared below with the writable view
+        intro_ro = K.walk_introspect(fs.real)
         run.ro_mode = True
         fired = 0
         try:
@@ -100,6 +103,10 @@ class RoSession:
         d = K.deep_diff(K.walk_file(fs.real), ro_walk)
         if d is not None:
             run.violation("ro_reads_differ", "ro_session", "rw_vs_ro:" + K.diff_class(d), "RW walk vs RO walk at %s: %s / %s" % d)
+        d = K.deep_diff(intro_ro, K.walk_introspect(fs.real))
+        if d is not None:
+            run.violation("ro_reads_differ", "ro_session", "introspect:" + K.diff_class(d),
+                          "read-only vs read-write at %s: ro=%s rw=%s" % d)
         run.stats["ro_sessions"] += 1
         run.stats["ro_mutators_fired"] += fired
         return res(OK)
